@@ -188,7 +188,8 @@ impl Hypergeometric {
         let k = if sample_size <= n / 2 {
             sample_size
         } else {
-            offset_x += n1 as i64 * sign_x;
+            // offsets above i64::MAX are kept modulo 2^64; the final result always fits in u64
+            offset_x = offset_x.wrapping_add((n1 as i64).wrapping_mul(sign_x));
             sign_x *= -1;
             n - sample_size
         };
@@ -444,7 +445,7 @@ impl Distribution<u64> for Hypergeometric {
             }
         };
 
-        (offset_x + sign_x * x) as u64
+        offset_x.wrapping_add(sign_x.wrapping_mul(x)) as u64
     }
 }
 
